@@ -30,7 +30,7 @@ def run_ser(pid, tier, seed, final_op, fmts, opts_quick, opts_thorough, clauses,
                  if not quick else ["entity", "association"], opts[:1] if quick else opts))
     runs.append(("shapes", 1, "attrs", ["agent", "derivation", "entity"], opts[:1]))
     # (3) a second record / a bundle next to the first
-    runs.append(("shapes", 2 if quick else 3, "min", ["entity", "generation", "membership"], opts[:1]))
+    runs.append(("shapes", 2 if quick else 3, "min", ["entity", "generation", "membership", "activity"], opts[:1]))
     # (4) namespace histories on the document and its bundle
     runs.append(("ns", 2 if quick else 3, "min", ["entity"], opts[:1]))
     # (5) a document with a default namespace and two bundles
